@@ -302,11 +302,19 @@ impl<'a> Parser<'a> {
             "null" => Ok(Value::Null),
             "true" => Ok(Value::Bool(true)),
             "false" => Ok(Value::Bool(false)),
-            number => Ok(Value::Number(
-                number
-                    .parse()
-                    .map_err(|_| self.traceback(ParseError::InvalidToken))?,
-            )),
+            number => {
+                // `f64::from_str` accepts more than the JSON grammar (`NaN`, `inf`, `+1`, `01`, `.5`, `1.`)
+                quiet_assert(
+                    is_number(number),
+                    self.traceback(ParseError::InvalidToken),
+                )?;
+
+                Ok(Value::Number(
+                    number
+                        .parse()
+                        .map_err(|_| self.traceback(ParseError::InvalidToken))?,
+                ))
+            }
         }
     }
 
@@ -351,6 +359,39 @@ fn quiet_assert(condition: bool, error: TracebackError) -> Result<(), TracebackE
 }
 
 /// Check whether a character is whitespace according to the specification.
+/// Checks the number grammar of RFC 8259: `-? (0 | [1-9][0-9]*) (. [0-9]+)? ([eE] [+-]? [0-9]+)?`.
+fn is_number(s: &str) -> bool {
+    let mut chars = s.chars().peekable();
+    let digits = |chars: &mut Peekable<Chars>| {
+        let mut count = 0_usize;
+        while chars.next_if(|c| c.is_ascii_digit()).is_some() {
+            count += 1;
+        }
+        count
+    };
+
+    chars.next_if_eq(&'-');
+
+    let leading_zero = chars.peek() == Some(&'0');
+    let int_digits = digits(&mut chars);
+    if int_digits == 0 || (leading_zero && int_digits > 1) {
+        return false;
+    }
+
+    if chars.next_if_eq(&'.').is_some() && digits(&mut chars) == 0 {
+        return false;
+    }
+
+    if chars.next_if(|c| *c == 'e' || *c == 'E').is_some() {
+        chars.next_if(|c| *c == '+' || *c == '-');
+        if digits(&mut chars) == 0 {
+            return false;
+        }
+    }
+
+    chars.next().is_none()
+}
+
 fn is_whitespace(c: impl Borrow<char>) -> bool {
     matches!(c.borrow(), ' ' | '\t' | '\n' | '\r')
 }
